@@ -3,14 +3,20 @@
 
   Full statement: Model.parse (spellModule ℓ t) = ok (t with positions) for every statement tree t, every
   trivia layout ℓ and every quoting of the arguments.
-  Proved: separators are invisible to the parser (`C10_sep_blind`: whatever run of separator items precedes
-  the next item, the parser's view is the same), the lexer's stream always ends properly (C07), and the
-  argument decoding lemmas of C08.  Not proved: the full round trip — held by stream ytree (random trees ×
+  Proved: the statement parser returns the tree that was written (`C10_tree_is_source`: for every source
+  tree — any depth, any number of sub-statements, arguments absent, unquoted or single-quoted pieces joined
+  by '+' — spelled as lexer items with any run of separators before any token, the result is exactly that
+  tree: keywords, arguments, keyword positions, source order and nesting; the fuel `parse` supplies always
+  suffices); separators are invisible to the parser (`C10_sep_blind`); the lexer's stream always ends
+  properly (C07); the argument decoding lemmas of C08 (double-quoted pieces).  Not proved: that the lexer
+  turns every spelling into those items (comments produce no item, blanks one separator item) — held by
+  stream ytree (random trees ×
   layouts with comments / blanks / line breaks at every token boundary × quotings, the real parser's tree
   walk compared with the model and with the generated tree incl. line:column of every keyword).
 -/
 import YV.Proofs.YLex
 import YV.Proofs.YArg
+import YV.Proofs.YTree
 namespace YV.C10
 open YV YV.Y
 
@@ -18,6 +24,42 @@ theorem C10_sep_blind (seps rest : List Item) (h : AllSep seps) (s : PS) (f : Na
     ∃ s' : PS, peekNS (f + seps.length) { s with items := seps ++ rest } =
       peekNS f { s' with items := rest } ∧ s'.items = rest :=
   peekNS_skip seps rest h s f
+
+/-- **the tree mirrors the source, trivia changes nothing**: `Src` is a statement tree together with the
+    separator items written before each of its tokens.  Parsing its items returns `src.tree`, which by
+    definition reads only the keywords (value and position), the argument pieces and the sub-statements —
+    none of the separator runs — so two spellings of one tree that differ in trivia parse to trees that
+    differ in positions only. -/
+theorem C10_tree_is_source (input : Bytes) (src : Src) (hw : src.wf) (seps : List Item) (eof : Item)
+    (hseps : AllSep seps) (heof : eof.typ = .eof) :
+    ∃ s', parseItems noChk input (src.items ++ (seps ++ [eof])) = .ok (src.tree, s') ∧ s'.items = [] :=
+  parseItems_spec input src hw seps eof hseps heof
+
+/-- `parse` is `parseItems` on what the lexer produced -/
+theorem C10_parse_of_items (input : Bytes) (src : Src) (hw : src.wf) (seps : List Item) (eof : Item)
+    (hseps : AllSep seps) (heof : eof.typ = .eof)
+    (hlex : lex true input = some (src.items ++ (seps ++ [eof]))) :
+    ∃ taken total, parse noChk true input = .ok src.tree taken total := by
+  obtain ⟨s', h, _⟩ := parseItems_spec input src hw seps eof hseps heof
+  unfold parse
+  simp only [hlex]
+  unfold parseItems at h
+  simp only [h]
+  exact ⟨_, _, rfl⟩
+
+/-- non-vacuity: a nested source with a comment, a quoted concatenation and blanks is such a `Src` -/
+def srcEx : Src :=
+  .block [] ⟨.string, 0, [97]⟩ (.bare [⟨.sep, 1, [32]⟩] ⟨.string, 2, [98]⟩) [] ⟨.lbrace, 3, [123]⟩
+    [.leaf [⟨.sep, 4, [32]⟩, ⟨.sep, 10, [32]⟩] ⟨.string, 11, [99]⟩
+       (.quoted [⟨.sep, 12, [32]⟩] ⟨.quote, 13, [39]⟩ ⟨.string, 14, [120]⟩ ⟨.quote, 15, [39]⟩
+          [([], ⟨.plus, 16, [43]⟩, [], ⟨.quote, 17, [39]⟩, ⟨.string, 18, [121]⟩, ⟨.quote, 19, [39]⟩)])
+       [] ⟨.semi, 20, [59]⟩]
+    [] ⟨.rbrace, 21, [125]⟩
+
+example : lex true ("a b{ /*;*/ c 'x'+'y';}\n".toList.map Char.toNat) =
+    some (srcEx.items ++ ([⟨.sep, 22, [10]⟩] ++ [⟨.eof, 23, []⟩])) := by decide
+example : srcEx.wf := by
+  simp [srcEx, Src.wf, wfL, SArg.wf, moreWf, AllSep]
 
 /-- comments are not items: the lexer emits nothing for them (worked instance, both comment forms,
     a comment containing statement punctuation) -/
